@@ -75,8 +75,9 @@ class Sim:
         self.postmortem = False
         self.bufs = []        # (id, view(uint8), shadow(uint8))
         self.my_locks = []    # locks held by this process (ids)
+        self.my_flocks = []   # simulated flock()s held by this process: the kernel releases these when the process dies
         self.fileids = {}
-        sizes = dict(hdr=32 * 8, status=NS * 4, blocked=NS * 4, exitcode=NS * 4, pids=NS * 8, prio=NS * 4,
+        sizes = dict(fkeys=(NL // 2) * 8, hdr=32 * 8, status=NS * 4, blocked=NS * 4, exitcode=NS * 4, pids=NS * 8, prio=NS * 4,
                      ycount=NS * NK * 4, lock_owner=NL * 4, raw=NR * 8, fired=NFAULT * 4,
                      events=self.maxev * 5 * 4, shadow=SHADOW_ARENA, probes=64 * 8)
         total = sum((s + 63) // 64 * 64 for s in sizes.values())
@@ -90,6 +91,7 @@ class Sim:
             off += (sizes[name] + 63) // 64 * 64
             assert n <= sizes[name]
             return a
+        self.fkeys = arr('fkeys', numpy.int64, (NL // 2,))
         self.hdr = arr('hdr', numpy.int64, (32,))
         self.status = arr('status', numpy.int32, (NS,))
         self.blocked = arr('blocked', numpy.int32, (NS,))
@@ -173,7 +175,7 @@ class Sim:
                     pass
         self.pipes = []
         # numpy views keep the mmap alive; drop them first
-        for name in ('hdr', 'status', 'blocked', 'exitcode', 'pids', 'prio', 'ycount', 'lock_owner', 'raw', 'fired', 'events', 'shadow', 'probes'):
+        for name in ('fkeys', 'hdr', 'status', 'blocked', 'exitcode', 'pids', 'prio', 'ycount', 'lock_owner', 'raw', 'fired', 'events', 'shadow', 'probes'):
             self.__dict__.pop(name, None)
         self.bufs = []
 
@@ -389,6 +391,7 @@ class Sim:
     def _die(self):
         '''KILL fault: this process dies here; locks it holds stay held.'''
         self.log(K_F_KILL, self.me, len(self.my_locks))
+        self._drop_flocks()
         self.status[self.me] = KILLED
         nxt = self._choose(exclude_me=True)
         if nxt == -1:
@@ -399,6 +402,43 @@ class Sim:
         os.kill(os.getpid(), signal.SIGKILL)
         while True:
             signal.pause()
+
+    def _drop_flocks(self):
+        for l in self.my_flocks:
+            if self.lock_owner[l] == self.me:
+                self.lock_owner[l] = -1
+                self.log(K_FUNLOCK, l, 1)
+        self.my_flocks = []
+
+    def flock_id(self, key):
+        '''Lock-table slot for a file (by name digest); shared by all processes of the run.'''
+        n = int(self.hdr[H_NFILEID])
+        for i in range(n):
+            if self.fkeys[i] == key:
+                return NL // 2 + i
+        if n >= NL // 2:
+            raise RuntimeError('procsim: file table full')
+        self.fkeys[n] = key
+        self.hdr[H_NFILEID] = n + 1
+        self.lock_owner[NL // 2 + n] = -1
+        return NL // 2 + n
+
+    def flock(self, l):
+        self.acquire(l, K_FLOCK, K_FLOCKOK)
+        if l in self.my_locks:
+            self.my_locks.remove(l)
+        self.my_flocks.append(l)
+
+    def funlock(self, l):
+        if l in self.my_flocks:
+            self.my_flocks.remove(l)
+            self.my_locks.append(l)
+            self.release(l, K_FUNLOCK)
+
+    def die_now(self):
+        '''Public: the calling process is killed at this instant (used by the file layer for torn writes).'''
+        self.observe_writes()
+        self._die()
 
     def _declare_over_and_die(self):
         if not self.hdr[H_OVER]:
@@ -442,6 +482,7 @@ class Sim:
         if pid == 0:
             self.me = slot
             self.my_locks = []
+            self.my_flocks = []
             self.pids[slot] = os.getpid()
             self._park()
             self.log(K_START, slot)
@@ -468,6 +509,7 @@ class Sim:
         self.observe_writes()
         self.log(K_EXIT, self.me, code, len(self.my_locks))
         self._count_and_fault(K_EXIT)
+        self._drop_flocks()
         self.status[self.me] = EXITED
         self.exitcode[self.me] = code
         self.hdr[H_STEP] += 1
@@ -531,7 +573,7 @@ class Sim:
 
     def new_lock(self):
         l = int(self.hdr[H_NLOCK])
-        if l >= NL:
+        if l >= NL // 2:
             raise RuntimeError('procsim: lock table full')
         self.hdr[H_NLOCK] = l + 1
         self.lock_owner[l] = -1
